@@ -2,10 +2,11 @@
    Statements only; proofs in theories/Legacy.v (and ModelIO.v). Document level, like C07: `content` is what a model
    holds; encode39 / to_scad are the inverse translations into the two legacy formats; decode39 / load_scad are the
    reading parts of translators/updater.py and translators/securicad.py.
-   PARTIAL: the rebuild of the model through add_asset / add_association / add_attacker is covered by C05 / C06 and by
-   the run on real files; for .sCAD only the run (Legacy.scad_check on every generated archive) ties load_scad to the
-   implementation and to the expected links and entry points. *)
-From MT Require Import Prelude Codec ModelIO Legacy.
+   The rebuild of the 0.0.39 loader is the same sequence of API calls as the native one (ModelLoad.load), so the
+   rebuild theorem of C07 applies: C18_v0039_rebuild, C18_v0039_same_model.
+   PARTIAL: for .sCAD the rebuild is not modelled as API calls; the run (Legacy.scad_check on every generated archive)
+   ties load_scad to the implementation and to the expected links and entry points. *)
+From MT Require Import Prelude Codec ModelIO Model ModelOps ModelInv ModelLoad ModelLoadThm Legacy LegacyLoad.
 
 Theorem C18_v0039_roundtrip_partial : forall c, no_extras c = true -> decode39 (encode39 c) = Some c.
 Proof. exact decode39_encode39. Qed.
@@ -15,6 +16,18 @@ Theorem C18_v0039_agrees_with_native_partial : forall c, no_extras c = true -> w
   decode39 (encode39 c) = decode (encode c).
 Proof. exact legacy39_agrees_with_native. Qed.
 Print Assumptions C18_v0039_agrees_with_native_partial.
+
+(* the 0.0.39 file of a loadable content is rebuilt, through the API, into a coherent model with that content *)
+Theorem C18_v0039_rebuild : forall defaults c, no_extras c = true -> loadable defaults c = true ->
+  exists c' s, decode39 (encode39 c) = Some c' /\ load defaults c' = (s, MOk) /\ MI s /\ content_of defaults (c_name c) s = c.
+Proof. exact legacy39_rebuild. Qed.
+Print Assumptions C18_v0039_rebuild.
+
+(* and it is the model the native file of the same content is rebuilt into *)
+Theorem C18_v0039_same_model : forall defaults c, no_extras c = true -> wf_content c = true ->
+  option_map (load defaults) (decode39 (encode39 c)) = option_map (load defaults) (decode (encode c)).
+Proof. exact legacy39_same_model. Qed.
+Print Assumptions C18_v0039_same_model.
 
 (* .sCAD: when the loader returns a model for the archive written from c, its assets are those of c and its links are
    exactly the pairs of c's associations (entry points: correspondence only). Premises: no asset type is called
